@@ -8,6 +8,10 @@ mod util;
 mod e_merge;
 mod e_lcov;
 mod e_markers;
+mod e_gcov;
+mod e_rewrite;
+mod e_jacoco;
+mod e_producer;
 mod e_report;
 mod e_escape;
 
@@ -17,6 +21,12 @@ fn dispatch(engine: &str, case: &Value) -> Value {
         "lcov" => e_lcov::run(case),
         "escape" => e_escape::run(case),
         "report" => e_report::run(case),
+        "producer" => e_producer::run(case),
+        "jacoco" => e_jacoco::run(case),
+        "rewrite" => e_rewrite::run(case),
+        "pathfacts" => e_rewrite::run_facts(case),
+        "gcov_text" => e_gcov::run_text(case),
+        "gcov_json" => e_gcov::run_json(case),
         "markers" => e_markers::run(case),
         "parse" => e_lcov::run_parse(case),
         "lcov_rt" => e_lcov::run_rt(case),
@@ -43,8 +53,10 @@ fn main() {
         }
         let case: Value = serde_json::from_str(&line).expect("case json");
         let eng = engine.clone();
+        let t0 = std::time::Instant::now();
         let res = panic::catch_unwind(panic::AssertUnwindSafe(|| dispatch(&eng, &case)));
-        let v = match res {
+        let us = t0.elapsed().as_micros() as u64;
+        let mut v = match res {
             Ok(v) => v,
             Err(e) => {
                 let msg = if let Some(s) = e.downcast_ref::<&str>() {
@@ -57,6 +69,9 @@ fn main() {
                 json!({ "panic": msg })
             }
         };
+        if let Some(o) = v.as_object_mut() {
+            o.insert("_us".to_string(), json!(us));
+        }
         writeln!(out, "{}", v).unwrap();
     }
     out.flush().unwrap();
